@@ -18,8 +18,8 @@ RULE = (
     "rounded square), each in both orientations and in int / Fraction / float variants, x all exponents a+b <= 4 "
     "(thorough: <= 6): IntegrateShape.polynomial, IntegrateShape.area, float(S), IntegrateJordan.area/vertical "
     "against exact closed-form integrals; exact equality and int/Fraction type for rational polygons, rel 1e-12 "
-    "for float polygons, rel 1e-10 where the library's interpolatory rule is nominally exact (quadratics a+b<=2, "
-    "cubic area), 2e-3*size^(a+b+2) otherwise. non-trivial = every (shape, exponent) pair with a+b>0 or curved; "
+    "for float polygons, rel 1e-10 for the area of curved shapes, 1e-6*size^(a+b+2) for their higher moments (quadrature accuracy "
+    "an order below the 1e-5 of C05). non-trivial = every (shape, exponent) pair with a+b>0 or curved; "
     "distinct = distinct (shape, a, b)."
 )
 ASSUMPTIONS = ["exact polynomial integration in mc/refgeo.py; float control points taken at their exact rational value"]
@@ -105,11 +105,12 @@ def run_case(spec):
             if maxdeg == 1:
                 tol = F(1, 10**12) * max(abs(ref), size ** (a + b + 2) * F(1, 1000))
             else:
-                nominal = all(p * (a + b + 2) - 1 <= (4 + a + b + p) - 1 for p in degs)
-                if nominal:
-                    tol = F(1, 10**10) * max(abs(ref), size ** (a + b + 2) * F(1, 1000))
+                # the area is exact up to rounding; for higher moments "quadrature accuracy" has to
+                # be at least an order better than the 1e-5 the measure identities of C05 rely on
+                if a + b == 0:
+                    tol = F(1, 10**10) * max(abs(ref), size ** 2 * F(1, 1000))
                 else:
-                    tol = F(2, 1000) * size ** (a + b + 2)
+                    tol = F(1, 10**6) * size ** (a + b + 2)
             if abs(rg.ex(got) - ref) > tol:
                 return "%s(%d,%d) = %r, exact value %s (tolerance %.3g)" % (tag, a, b, got, float(ref), float(tol))
             return None
